@@ -187,6 +187,8 @@ structure SwapPost (m : Mgr) (ext : Nat → Nat) (x : Nat) (r : Nat × Nat) (m' 
   lastLen : m'.lastLen = m.lastLen
   ctx : m'.ctx = m.ctx
   cacheEmpty : m'.cache = {}
+  /-- the declared names are the same -/
+  names : ∀ v : String, m'.tbl.vars.contains v = m.tbl.vars.contains v
   /-- no unreferenced node is left behind (if there was none before) -/
   noZero : (∀ k : Nat, m.ref[k]? ≠ some 0) → ∀ k : Nat, m'.ref[k]? ≠ some 0
 
@@ -279,7 +281,8 @@ theorem swapWith_spec (m : Mgr) (ext : Nat → Nat) (s : List SchedItem) (hI : I
     intro k
     rw [e7]
     exact this k
-  refine ⟨_, m7, rfl, ⟨hI7, ?_, hG.refExact, ⟨?_, ?_, ?_⟩, ?_, ?_, rfl, ?_, ?_, hG.cacheEmpty, hnz⟩,
+  refine ⟨_, m7, rfl, ⟨hI7, ?_, hG.refExact, ⟨?_, ?_, ?_⟩, ?_, ?_, rfl, ?_, ?_, hG.cacheEmpty,
+      (fun v => by rw [hv7]; exact hP.names v), hnz⟩,
     hG.sub.sched.trans hP.sched⟩
   · exact ⟨fun v i => by rw [hv7, hl7]; exact hO6.inv v i, fun v i => by rw [hv7, hn7]; exact hO6.lt v i,
       fun i => by rw [hn7, hl7]; exact hO6.total i⟩
@@ -305,15 +308,16 @@ theorem swapWith_spec (m : Mgr) (ext : Nat → Nat) (s : List SchedItem) (hI : I
 (the only other outcome is the model's report that the recorded schedule does not fit) -/
 theorem swapBody_spec (m : Mgr) (ext : Nat → Nat) (hI : Inv m) (hV : OrderOK m.tbl)
     (hR : RefExact m ext) (hoff : m.ctx = false ∨ m.lastLen = none) (x : Nat) (hx : x + 1 < m.nvars) :
-    OkOrSched (SwapPost m ext x) (swapBody x (x + 1) m) := by
+    OkOrSched (fun r m' => SwapPost m ext x r m' ∧ (m.sched = [] → m'.sched = []))
+      (swapBody x (x + 1) m) := by
   unfold swapBody
   rw [M.bind_ok (M.get_eq m)]
   refine OkOrSched.bind (takeSwapOrders_spec x (x + 1) m) ?_
-  rintro ⟨ox, oy⟩ m1 ⟨⟨s, rfl⟩, hox, hoy⟩
-  obtain ⟨r, m', hrun, hp, _⟩ := swapWith_spec m ext s hI hV hR hoff x hx ox oy hox hoy
+  rintro ⟨ox, oy⟩ m1 ⟨⟨s, rfl, hs0⟩, hox, hoy⟩
+  obtain ⟨r, m', hrun, hp, hs'⟩ := swapWith_spec m ext s hI hV hR hoff x hx ox oy hox hoy
   simp only
   rw [hrun]
-  exact hp
+  exact ⟨hp, fun h => by rw [hs']; exact hs0 h⟩
 
 /-- with no recorded schedule (the model then iterates in ascending order) the call cannot fail -/
 theorem swapBody_total (m : Mgr) (ext : Nat → Nat) (hI : Inv m) (hV : OrderOK m.tbl)
